@@ -48,11 +48,23 @@ KNOWN = [
     ("doc:C05-repeated-var-structured", lambda c, k, op, mo, io: op["op"] in ("event", "searchRules") and any(repeated_var_structured(p, op["event"]) for p in rule_patterns(c, k))),
     # documented behaviour, not a finding: a rule id present both in a location and in one of its ancestors is the duplicate-id error
     ("doc:duplicate-id-across-ancestors", lambda c, k, op, mo, io: op["op"] in ("event", "searchRules") and isinstance(io, dict) and io.get("err") == "dupId" and same_id_in_two_locations(c, k)),
-    ("C01-diamond-ancestor-duplicate-id", lambda c, k, op, mo, io: op["op"] in ("event", "searchRules") and isinstance(io, dict) and io.get("err") == "dupId" and "d" in c["locs"]),
     ("C01-hetero-array-event", lambda c, k, op, mo, io: c["state"] == "indexed" and op["op"] in ("event", "searchRules") and hetero(op["event"])),
     ("C01-var-const-array", lambda c, k, op, mo, io: c["state"] == "indexed" and op["op"] in ("event", "searchRules") and any(var_const_array(p) for p in rule_patterns(c, k))),
     ("C01-property-variable-hidden", lambda c, k, op, mo, io: c["state"] == "indexed" and op["op"] in ("event", "searchRules") and any(has_varkey(p) for p in rule_patterns(c, k))),
     ("C01-unsortable-pattern-rejected", lambda c, k, op, mo, io: c["state"] == "indexed" and op["op"] == "addRule" and isinstance(io, dict) and io.get("err") == "notSortable"),
+]
+
+# C01-diamond-ancestor-duplicate-id (repaired): a rule of an ancestor shared by two parents is dispatched once, not reported as a duplicate id
+_DR = {"when": {"pattern": {"go": "?x"}}, "action": {"code": "(1)", "verif_tmpl": {"t": "lit", "v": 1}}}
+FORMER = [
+    {"locs": ["a", "b", "c", "d"], "ops": [{"op": "setParents", "loc": "a", "parents": ["b", "c"]}, {"op": "setParents", "loc": "b", "parents": ["d"]},
+                                        {"op": "setParents", "loc": "c", "parents": ["d"]}, {"op": "addRule", "loc": "d", "id": "r1", "rule": _DR},
+                                        {"op": "event", "loc": "a", "event": {"go": 1}}, {"op": "searchRules", "loc": "a", "event": {"go": 1}, "inherited": True},
+                                        {"op": "addRule", "loc": "b", "id": "r2", "rule": _DR}, {"op": "event", "loc": "a", "event": {"go": 2}}]},
+    # a location that is parent and grandparent at once; a parent named twice
+    {"locs": ["a", "b", "c"], "ops": [{"op": "setParents", "loc": "a", "parents": ["b", "c"]}, {"op": "setParents", "loc": "b", "parents": ["c"]},
+                                   {"op": "addRule", "loc": "c", "id": "r1", "rule": _DR}, {"op": "event", "loc": "a", "event": {"go": 1}},
+                                   {"op": "setParents", "loc": "a", "parents": ["c", "c"]}, {"op": "event", "loc": "a", "event": {"go": 1}}]},
 ]
 
 def gen_case(rng, thorough, inside):
@@ -123,7 +135,9 @@ def main():
     pr = proof_part(ck, "C01")
     lr = LocRun(ck, KNOWN); lr.build()
     n = 500 if not ck.thorough else 12000
-    gens = [gen_case(ck.rng, ck.thorough, inside=(ck.rng.random() < 0.8)) for _ in range(n)]
+    gens = [gen_case(ck.rng, ck.thorough, inside=(ck.rng.random() < 0.8)) for _ in range(n - len(FORMER))]
+    # the witnesses of repaired findings run as ordinary histories (the model describes the repaired tree)
+    gens = [(f["locs"], copy.deepcopy(f["ops"])) for f in FORMER] + gens
     idx = [{"kind": "loc", "state": "indexed", "locs": l, "ops": copy.deepcopy(o)} for l, o in gens]
     lin = [{"kind": "loc", "state": "linear", "locs": l, "ops": copy.deepcopy(o)} for l, o in gens]
     impl, model, mc = lr.run(idx + lin, nontrivial=lambda c: any(o["op"] in ("event", "searchRules") for o in c["ops"]) and any(o["op"] == "addRule" for o in c["ops"]))
